@@ -38,6 +38,7 @@ type EvictPlan struct {
 	IntervalMs int64        `json:"interval_ms"`
 	Entries    []EvEntry    `json:"entries"`
 	NewLimit   int64        `json:"new_limit,omitempty"`    // limit changed at run time before the trigger
+	PreLimit   int64        `json:"pre_limit,omitempty"`    // with NewLimit: another value is set first, NewLimit right behind it (two notifications in flight)
 	NewIntMs   int64        `json:"new_interval,omitempty"` // interval changed at run time before the trigger
 	Trigger    string       `json:"trigger"`                // "store" | "tick"
 	TrigSize   int          `json:"trig_size"`
@@ -93,10 +94,13 @@ func genEvictPlan(r *rand.Rand) *EvictPlan {
 	p.IntervalMs = []int64{4000, 10000, 60000}[r.IntN(3)]
 	p.Trigger = []string{"store", "tick"}[r.IntN(2)]
 	p.TrigSize = []int{1000, 200 * evKiB, evMiB}[r.IntN(3)]
-	if r.IntN(4) == 0 {
+	if r.IntN(3) == 0 {
 		// the limit is changed at run time; the initial one is generous so nothing happens before
 		p.NewLimit = p.Limit
 		p.Limit = total * 4
+		if r.IntN(4) != 0 {
+			p.PreLimit = []int64{total * 8, 1000, total / 3}[r.IntN(3)]
+		}
 	}
 	if r.IntN(5) == 0 && p.Trigger == "tick" {
 		p.NewIntMs = []int64{1000, 2500}[r.IntN(2)]
@@ -231,6 +235,14 @@ func runEvictPlan(t *testing.T, planAny any, ctl Ctl) *Result {
 			}
 			s.WaitUntil("harness:ev-settle", base.Add(3100*time.Millisecond))
 			if p.NewLimit > 0 {
+				// with PreLimit: several changes right behind one another, the wanted value last; every
+				// change has its own notification task, and any of them may be the last one to run
+				for i := 0; p.PreLimit > 0 && i < 3; i++ {
+					config.UpdatePartialFromConfig(cfg, map[string]any{"cache": map[string]any{"max_cache_size": fmt.Sprintf("%dB", p.PreLimit+int64(i))}})
+					if i < 2 {
+						config.UpdatePartialFromConfig(cfg, map[string]any{"cache": map[string]any{"max_cache_size": fmt.Sprintf("%dB", p.NewLimit)}})
+					}
+				}
 				config.UpdatePartialFromConfig(cfg, map[string]any{"cache": map[string]any{"max_cache_size": fmt.Sprintf("%dB", p.NewLimit)}})
 			}
 			if p.NewIntMs > 0 {
